@@ -379,6 +379,40 @@ def run(check):
                     'its queue before clearing it', construct='reinjectDatapoints')
 
   # ------------------------------------------------------------------ stop after empty
+  # ------------------------------------------------------------------ per-connection pause state
+  r_ps = check.rule('R-C07-pause-reset', 1, 'a pause requested by one connection\'s transport does not outlive that connection')
+  flags = []
+  for cls_, owner_of_self in ((pro, 'protocol'), (fac, 'factory')):
+    pp = cls_.methods.get('pauseProducing')
+    if pp is None:
+      continue
+    for n in walk_no_nested(pp.node, include_self=False):
+      if isinstance(n, ast.Assign) and isinstance(n.value, ast.Constant) and n.value.value is True:
+        for t in n.targets:
+          d = dotted(t) or ''
+          if d.startswith('self.factory.') and owner_of_self == 'protocol':
+            flags.append(('factory', d.split('.')[-1], pp, n))
+          elif d.startswith('self.') and d.count('.') == 1:
+            flags.append((owner_of_self, d.split('.')[-1], pp, n))
+  cmade = pro.methods.get('connectionMade')
+  if not flags:
+    r_ps.cannot_decide('no pauseProducing() that sets a pause flag found in the client protocol')
+  elif cmade is None:
+    r_ps.cannot_decide('CarbonClientProtocol.connectionMade not found')
+  else:
+    gcm = cx.cfg(cmade)
+    for owner, attr, pp, n in flags:
+      want = 'self.%s' % attr if owner == 'protocol' else 'self.factory.%s' % attr
+      resets = {x for x in gcm.nodes if x.kind == 'stmt' and isinstance(x.ast, ast.Assign) and
+                isinstance(x.ast.value, ast.Constant) and x.ast.value.value is False and any(dotted(t) == want for t in x.ast.targets)}
+      if resets and gcm.exit not in gcm.reach([gcm.entry], removed_nodes=resets, normal_only=True):
+        r_ps.ok('%s is cleared whenever a connection is made' % want, cmade.loc(sorted(resets, key=lambda x: x.lineno)[0].ast))
+      else:
+        r_ps.violate('pause flag survives the connection', pp, n, 'pauseProducing() sets `%s`, which connectionMade() does not clear: '
+                     'when a connection is lost while its transport had the producer paused, resumeProducing() never comes, the '
+                     'flag stays set (%s) and the queue of the next connection is never sent'
+                     % (want, 'the factory outlives its connections' if owner == 'factory' else 'unless the protocol object is new'))
+
   r_e = check.rule('R-C07-stop-after-empty', 3, 'a destination is closed only after its queue has been transmitted')
   for f in repo.all_functions():
     for c in [n for n in walk_no_nested(f.node, include_self=False) if isinstance(n, ast.Call)]:
